@@ -1,6 +1,8 @@
 import RichModel.Lemmas.AnsiForeign
 import RichModel.Lemmas.AnsiLegacy
 import RichModel.Lemmas.AnsiCsi
+import RichModel.Lemmas.AnsiLiveStreams
+import RichModel.Props.C10
 /-!
 # C19 — the ANSI decoder inverts the truecolor encoder, and redirected output is never lost
 
@@ -12,7 +14,7 @@ Everything here holds for lines, texts, styles, histories of any size.  `decide 
 only for the two table obligations and for closed witnesses that look a character up in those tables.
 
 The code variants (`Ansi.Cfg`): `intRaises` (F10), `flushRaw` (F20) — repaired in /repo — and `emptyIgnored` (F27),
-`resetDropsLink` (F28), `offSingle` (F29), `crErases` (F31), `sgrLazy` (F32) are `true` for rich 9.10.0 as found; the full-strength theorems are
+`resetDropsLink` (F28), `offSingle` (F29), `crErases` (F31), `sgrLazy` (F32), `oscStOnly` (F33) are `true` for rich 9.10.0 as found; the full-strength theorems are
 proved for the repaired variant and the `old_…` theorems show by evaluation that the variant as found violates
 them.  The round trip `decode_encode` holds for every variant (the encoder never writes what F27-F29 are about).
 
@@ -22,6 +24,21 @@ to do and agrees with a terminal whenever the later text is at least as long as 
 (`abc\rxy` → `xyc`) would need cell positions, which a line of text printed through the console does not have.
 The proxy theorems hold for such lines too (they are about what is handed to the decoder); only "complete" is
 then relative to that reading, and the generators keep interior CRs in the model-only stream.
+
+Escape sequences that are neither SGR, OSC nor CSI — classification against "complete … with its ANSI styling preserved"
+(evidence: the probes of `section_decoder`, compared with the model on every run, counted with `ctx.note`):
+* control strings DCS / SOS / PM / APC (`ESC P|X|^|_ … ESC \`): `re_csi` removes the two-character introducer and the
+  terminator, the PAYLOAD is printed as text (`ESC P q#0… ESC \` prints `q#0…`).  Nothing written as text is lost and no
+  styling changes; characters that were not text appear.  Outside the statement (it speaks of lines written and their
+  styling, not of control strings a line-oriented console cannot honour); a repair (`re_csi` consuming the whole string) is
+  noted in the MANIFEST, not proposed as a finding.
+* 8-bit C1 controls (`U+009B` CSI, `U+009D` OSC, `U+0090` DCS, `U+009C` ST): not part of the decoder's grammar, kept
+  verbatim and handed to the terminal as written — complete, styling as the terminal reads it.  Outside.
+* two-character escapes other than `ESC @ … ESC _` (`ESC 7`, `ESC 8`, `ESC c`, `ESC =`, `ESC ( B`): kept verbatim, ESC included.
+  Complete; whether the terminal then moves its cursor is the display's concern (C10), not this property's.
+* ISO 8613-6 colon sub-parameters (`ESC [ 38:2::r:g:b m`, `4:3`): read as SGR (nothing is swallowed), the parameter is not a
+  number and is ignored like every invalid code — the text is complete and unstyled.  `decode_sgr_means_ecma` is about
+  semicolon-separated numeric parameters; this form is outside it.
 
 Outside the statement (observed by the harness, not a theorem, not a check): `Live.stop` / `Progress.stop` do not
 flush the two proxies.  A partial line pending at `stop()` is not a *line written* (no newline yet) and no *flush*
@@ -170,7 +187,7 @@ theorem old_flush_prints_raw :
 /-- F10 through the proxy, code as found: `write("q\n\x1b[²m\n")` raises and prints nothing — the complete
 line `q` is lost (`units` says it must be printed). -/
 theorem old_write_loses_line :
-    (run ⟨true, false, false, false, false, false, true⟩ Proxy.init [.write ['q', '\n', ESC, '[', '²', 'm', '\n']]).2 = [.raised .valueError] ∧
+    (run ⟨true, false, false, false, false, false, true, false⟩ Proxy.init [.write ['q', '\n', ESC, '[', '²', 'm', '\n']]).2 = [.raised .valueError] ∧
     units [.write ['q', '\n', ESC, '[', '²', 'm', '\n']] = [['q'], [ESC, '[', '²', 'm']] := by
   decide +kernel
 
@@ -196,6 +213,78 @@ theorem proxy_two_streams (cfg : Ansi.Cfg) (hraw : cfg.flushRaw = false) (hint :
   refine ⟨st', ts, a1, by rw [h1]; exact a2, a3, by rw [h2]; exact a4, ?_⟩
   rw [h1]
   exact proxy_verbatim cfg hraw hint (proj b h)
+
+/-! ## The proxies inside the live display (C10's model, imported read-only) -/
+
+/-- **live_write_is_proxy_write.**  The `Op.write` of C10's display model IS the `FileProxy.write` of this model —
+the same function on the same inputs: on a redirected stream it prints, through the display, exactly the lines
+`writeLoop` completes from the pending text and the written characters, and keeps exactly `writeLoop`'s new buffer
+pending.  (C10 restates the part of `proxy_lines` it needs as `stream_writes_print_complete_lines`; with this
+theorem the two models cannot drift apart: `cutNL_eq_completeLines`, `writeLoop_eq_pw`.) -/
+theorem live_write_is_proxy_write (cfg : Live.Cfg) (fails : Nat → Bool) (st : Live.St) (e : Bool)
+    (lines : List Live.Line) (tail : Live.Line) (hp : Live.proxied st e = true)
+    (hnl : (∀ l ∈ lines, '\n' ∉ l) ∧ '\n' ∉ tail) (buf : List (List Char)) (hb : buf.flatten = Live.getBuf st e) :
+    Live.doWrite cfg fails st e lines tail =
+      (match (writeLoop (Live.flatW (lines, tail)) [] buf []).1 with
+       | [] => { st := Live.setBuf st e (writeLoop (Live.flatW (lines, tail)) [] buf []).2.flatten }
+       | ls => Live.doPrint cfg fails (Live.setBuf st e (writeLoop (Live.flatW (lines, tail)) [] buf []).2.flatten) ls) :=
+  doWrite_eq_proxy cfg fails st e lines tail hp hnl buf hb
+
+/-- **live_screen_with_proxied_streams** (C10's `live_screen` composed with this property).  A display is started,
+then any sequence `b` of prints, refreshes, updates, resizes and writes to the two redirected streams (chunked
+anyhow), then it is stopped (repaired `stop`).  Replaying everything written on a fresh terminal shows:
+the printed lines, then the last frame, then blank rows only — where the printed lines are, operation by operation
+in program order, what C19's proxy hands over (`bodyPrinted`), followed by the text still pending on stdout, then on
+stderr; and for each stream `e` the lines printed on its behalf are exactly the complete lines of `e`'s own
+flattened character stream (`unitsAux`: each once, in order, nothing glued in from the other stream) and its
+pending text is the unterminated rest.  Every such line without escapes is printed as it was written
+(`decode_plain_complete`: the decoded Text's characters are the line's). -/
+theorem live_screen_with_proxied_streams (cfg : Live.Cfg) (ov : Live.Overflow) (r0 : Live.Frame) (b : List Live.Op)
+    (hfix : cfg.bareBypass = false) (hflush : cfg.flushFix = true)
+    (hwf : Live.wf cfg ov r0 (.start :: b ++ [.stop]) = true)
+    (hb : ∀ op ∈ b, isBody op = true ∧ writeOk op)
+    (hprox : ∀ e, Live.proxied (Live.step cfg Live.noFault (Live.initSt ov r0) .start).st e = true) :
+    let st1 := (Live.step cfg Live.noFault (Live.initSt ov r0) .start).st
+    let stE := runBody cfg st1 b
+    (∃ k, (Screen.replay cfg.height Screen.init (Live.emit cfg ov r0 (.start :: b ++ [.stop]))).rows =
+        (Live.printed cfg ov r0 (.start :: b ++ [.stop]) ++ Live.lastFrame cfg ov r0 (.start :: b ++ [.stop])).map
+          (Live.cells cfg.cw) ++ List.replicate k []) ∧
+    Live.printed cfg ov r0 (.start :: b ++ [.stop]) =
+      bodyPrinted cfg st1 b ++ (if stE.started then Live.pendLines cfg stE else []) ∧
+    (∀ e, streamLines cfg e st1 b = (unitsAux ((streamText e b).map .ch) (Live.getBuf st1 e)).1 ∧
+          Live.getBuf stE e = (unitsAux ((streamText e b).map .ch) (Live.getBuf st1 e)).2) ∧
+    (∀ (acfg : Ansi.Cfg) (dst : Style) (l : List Char), textOk l = true →
+        ∃ runs, decodeLine acfg dst l = (dst, .ok runs) ∧ plainOf runs = l) := by
+  intro st1 stE
+  refine ⟨C10.live_screen cfg ov r0 _ hfix hflush hwf, ?_, ?_, fun acfg dst l hl => decode_plain_complete acfg dst l hl⟩
+  · have hok : ∀ op ∈ (Live.Op.start :: b ++ [Live.Op.stop]), writeOk op := by
+      intro op hop
+      simp only [List.cons_append, List.mem_cons, List.mem_append, List.not_mem_nil, or_false] at hop
+      rcases hop with rfl | hop | rfl
+      · trivial
+      · exact (hb op hop).2
+      · trivial
+    have h1 := specRun_printed cfg (.start :: b ++ [.stop]) hok (Live.initSt ov r0) {}
+    have hne : (Live.Op.start : Live.Op) ≠ .stop := by decide
+    simp only [Live.printed]
+    rw [h1]
+    simp only [List.nil_append, List.cons_append, printedRunJ, hne, if_false, printedByJ]
+    exact printedRunJ_body_stop cfg b (fun o ho => (hb o ho).1) st1
+  · intro e
+    obtain ⟨a1, a2, _⟩ := body_stream_lines cfg e b st1 hb hprox
+    exact ⟨a1, a2⟩
+
+/-- a display 6 rows high with the repaired `stop`, and a body mixing writes to both streams, a refresh and a print -/
+def jointCfg : Live.Cfg := { C10.cfgLive with bareBypass := false, flushFix := true, height := 6 }
+def jointBody : List Live.Op :=
+  [.write false [['a']] ['b'], .write true [] ['x'], .refresh, .write false [['c']] [], .print [['p']], .write true [['y']] ['z']]
+
+example : Live.wf jointCfg .crop [['F']] (.start :: jointBody ++ [.stop]) = true := by decide
+example : ∀ e, Live.proxied (Live.step jointCfg Live.noFault (Live.initSt .crop [['F']]) .start).st e = true := by decide
+example : ∀ op ∈ jointBody, isBody op = true := by decide
+/-- stdout wrote `a⏎b` then `c⏎`, stderr `x` then `y⏎z`: lines `a`, `bc`, (print `p`), `xy`, and `z` completed by `stop` -/
+example : Live.printed jointCfg .crop [['F']] (.start :: jointBody ++ [.stop]) = [['a'], ['b', 'c'], ['p'], ['x', 'y'], ['z']] := by
+  decide
 
 /-! ## Foreign ANSI: the decoder reads SGR the way ECMA-48 does -/
 
@@ -247,6 +336,36 @@ theorem crlf_lines_complete (cfg : Ansi.Cfg) (hc : cfg.crErases = false) (st : S
     ∃ runs, decodeLine cfg st (l ++ List.replicate k '\r') = (st, .ok runs) ∧ plainOf runs = l :=
   decodeLine_trailing_cr cfg hc st l h k
 
+/-- **osc_bel_terminated** (repaired F33).  An OSC 8 hyperlink written with the BEL terminator — `ESC ] 8 ; params ; url BEL`,
+the form most programs use — is read exactly like the `ESC \\` form: whatever text was pending is flushed with the old
+state, the decoder's style gets the link (or loses it, for an empty url), and decoding goes on after the BEL. -/
+theorem osc_bel_terminated (cfg : Ansi.Cfg) (hb : cfg.oscStOnly = false) (st : Style) (params link rest acc : List Char)
+    (hp : ∀ c ∈ params, c ≠ ESC ∧ c ≠ '\n' ∧ c ≠ ';' ∧ c ≠ BEL) (hl : ∀ c ∈ link, c ≠ ESC ∧ c ≠ '\n' ∧ c ≠ BEL) :
+    R cfg st ([ESC, ']', '8', ';'] ++ params ++ ';' :: link ++ [BEL] ++ rest) acc =
+      push (flushRuns st acc) (R cfg (Style.updateLink cfg.sv st (linkOrNone link)) rest []) :=
+  R_osc8_bel cfg hb st params link rest acc hp hl
+
+/-- F33 on the code as found: `ESC]8;;http://x BEL link ESC]8;; BEL` — the link is lost and `8;;http://x` is printed. -/
+theorem old_osc_bel_not_recognised :
+    ((decodeLine { Ansi.Cfg.repaired with oscStOnly := true } Style.null
+        (ESC :: ']' :: "8;;u".toList ++ BEL :: 'L' :: ESC :: ']' :: "8;;".toList ++ [BEL])).2.toOption.map fun rs => (plainOf rs, charsOf rs |>.map (·.2.link)))
+      = some ("8;;u".toList ++ BEL :: 'L' :: "8;;".toList ++ [BEL], List.replicate 10 none) ∧
+    ((decodeLine Ansi.Cfg.repaired Style.null
+        (ESC :: ']' :: "8;;u".toList ++ BEL :: 'L' :: ESC :: ']' :: "8;;".toList ++ [BEL])).2.toOption.map fun rs => (plainOf rs, charsOf rs |>.map (·.2.link)))
+      = some (['L'], [some ['u']]) := by
+  decide +kernel
+
+/-- **decode_cr_keeps_last_segment.**  Exactly what is kept of a line with carriage returns inside (repaired F31): the
+text after the last carriage return that is followed by text.  `pre ⏎ seg ⏎…⏎` with `seg` non-empty and free of CR
+decodes as `seg` alone — whatever `pre` contains (text, escapes, further CRs) has no effect, not even on the decoder's
+state.  A terminal would show `seg` written over `pre`: the two readings agree whenever `seg` covers at least as many
+cells as what was on the line before (evaluated on real rich by the harness), otherwise the tail of the earlier text
+that a terminal would leave visible is dropped. -/
+theorem decode_cr_keeps_last_segment (cfg : Ansi.Cfg) (hc : cfg.crErases = false) (st : Style) (pre seg : List Char)
+    (hs : ∀ c ∈ seg, c ≠ '\r') (hne : seg ≠ []) (k : Nat) :
+    decodeLine cfg st (pre ++ '\r' :: (seg ++ List.replicate k '\r')) = decodeLine cfg st seg := by
+  simp only [decodeLine, hc, afterLastCR_last_segment pre seg hs hne k, afterLastCR_noCR false seg hs]
+
 /-- **other_csi_dropped** (repaired F32).  A control sequence `ESC [ params intermediates final` that is not SGR
 (cursor show / hide, erase, cursor movement, private sequences …) is dropped and the text before and after it
 comes out complete — nothing up to "the next letter m" is swallowed. -/
@@ -254,6 +373,23 @@ theorem other_csi_dropped (cfg : Ansi.Cfg) (hl : cfg.sgrLazy = false) (st : Styl
     (h : OtherCsi ps is f) (t1 t2 : List Char) (h1 : textOk t1 = true) (h2 : textOk t2 = true) :
     ∃ runs, decodeLine cfg st (t1 ++ csiSeq ps is f ++ t2) = (st, .ok runs) ∧ plainOf runs = t1 ++ t2 :=
   decodeLine_other_csi cfg hl st h t1 t2 h1 h2
+
+/-- `other_csi_dropped` leaves no gap: every control sequence `ESC [ P…P I…I F` — any parameter bytes `0-?`, any
+intermediate bytes (space to slash), ANY final byte `@-~` — is either exactly what the repaired pattern reads as SGR (final `m`, no
+intermediates, parameters in `[0-9;:]`) or an `OtherCsi`, which is dropped with the text around it intact. -/
+theorem every_csi_is_sgr_or_dropped (ps is : List Char) (f : Char) (hp : ∀ c ∈ ps, isCsiParam c = true)
+    (hi : ∀ c ∈ is, isCsiInter c = true) (hf : isCsiFinal f = true) :
+    (f = 'm' ∧ is = [] ∧ ∀ c ∈ ps, isSgrParam c = true) ∨ OtherCsi ps is f := by
+  by_cases h1 : f = 'm'
+  · by_cases h2 : is = []
+    · cases h3 : ps.all isSgrParam with
+      | true => exact Or.inl ⟨h1, h2, by simpa [List.all_eq_true] using h3⟩
+      | false =>
+        refine Or.inr ⟨hp, hi, hf, Or.inr (Or.inr ?_)⟩
+        obtain ⟨c, hc, hbad⟩ := List.all_eq_false.mp h3
+        exact ⟨c, hc, by simpa using hbad⟩
+    · exact Or.inr ⟨hp, hi, hf, Or.inr (Or.inl h2)⟩
+  · exact Or.inr ⟨hp, hi, hf, Or.inl h1⟩
 
 /-- F31 on the code as found: `write("foo\r\n")` — the line `foo\r` decodes to nothing. -/
 theorem old_trailing_cr_erases_line :
@@ -301,17 +437,25 @@ example : ∀ g ∈ sampleSegs, SegOk g := by
   intro g hg
   simp only [sampleSegs, List.mem_cons, List.not_mem_nil, or_false] at hg
   rcases hg with rfl | rfl | rfl
-  · refine ⟨by decide, by decide, ?_⟩
-    intro s hs
-    simp only [Option.some.injEq] at hs
-    subst hs
-    exact ⟨⟨by decide, by decide, by intro h; cases h⟩, by decide, by decide⟩
-  · exact ⟨by decide, by decide, by intro s hs; cases hs⟩
-  · refine ⟨by decide, by decide, ?_⟩
-    intro s hs
-    simp only [Option.some.injEq] at hs
-    subst hs
-    exact ⟨inv_fromColor _ _ _, by decide, by decide⟩
+  · refine ⟨by decide, by decide, ?_, ⟨by decide, ?_⟩⟩
+    · intro s hs
+      simp only [Option.some.injEq] at hs
+      subst hs
+      exact ⟨⟨by decide, by decide, by intro h; cases h⟩, by decide, by decide⟩
+    · intro s hs
+      simp only [Option.some.injEq] at hs
+      subst hs
+      decide
+  · exact ⟨by decide, by decide, (by intro s hs; cases hs), ⟨by decide, (by intro s hs; cases hs)⟩⟩
+  · refine ⟨by decide, by decide, ?_, ⟨by decide, ?_⟩⟩
+    · intro s hs
+      simp only [Option.some.injEq] at hs
+      subst hs
+      exact ⟨inv_fromColor _ _ _, by decide, by decide⟩
+    · intro s hs
+      simp only [Option.some.injEq] at hs
+      subst hs
+      decide
 
 example : Blank Style.null := blank_null
 
